@@ -38,8 +38,13 @@ def gen_damage(rng, spt, cls, nrec=None):
             op['ins'] = rng.below(2)
             op['v'] = rng.below(2)
         elif k == 'drop':
-            op['len'] = rng.choice([4, 16, 48, 100, 300, 1000, 5000])
+            op['len'] = rng.choice([4, 16, 48, 100, 300, 1000, 5000, 4200, 4700, 5400, 8400, 9000, 13000])
             op['v'] = rng.weighted([(3, 0), (1, 1)])
+            if op['len'] >= 4000 and rng.chance(0.6):
+                # a long dead stretch that begins right behind a good header: the next data field the decoder meets is
+                # one, two or three sectors further on
+                op['region'] = rng.choice(['gap2', 'gap2', 'datamark'])
+                op['off'] = rng.choice([0, 0, 100, 400])
         ops.append(op)
     return ops
 
@@ -67,7 +72,7 @@ class C06(CheckBase):
     stubbed_components = ['SimFileAccess (the medium, in memory)', 'BitStream input bytes for track-level cases']
 
     def budget(self, tier):
-        return 1200 if tier == 'quick' else 40000
+        return 2000 if tier == 'quick' else 40000
 
     def time_cap(self, tier):
         return 700 if tier == 'quick' else 6000
@@ -77,7 +82,7 @@ class C06(CheckBase):
 
     # ------------------------------------------------------------------ generation
     def gen_case(self, rng, tier, index):
-        level = rng.weighted([(6, 'track'), (1, 'image')])
+        level = rng.weighted([(5, 'track'), (1, 'image')])
         if level == 'track':
             enc = rng.choice(['fm', 'mfm'])
             spt = 10 if enc == 'fm' else rng.choice([16, 18])
